@@ -3,7 +3,8 @@
    (1) the documented forcing as a sparse two-sided spectrum (in units of the injection scale gamma):
          3D velocity :  f_0 = gamma sin(k w x_1)            -> channel 1, modes (0,+-k,0), coefficients -+ i/2
          2D vorticity:  f   = - k w gamma cos(k w x_1)      -> modes (0,+-k), coefficients - k w / 2
-       Hermitian, representable on the grid iff 1 <= k < N/2, and the convective term vanishes on the forced shear mode,
+       Hermitian, representable on the grid iff 1 <= k < N/2 - and, for the cosine only, also at the Nyquist wavenumber k = N/2 of an even
+       grid (cos(pi j) = (-1)^j is a grid function with a real Nyquist coefficient; the sine vanishes on the grid there) - and the convective term vanishes on the forced shear mode,
        so the nonlinear term along the laminar solution is the forcing itself at every ETDRK stage.
    (2) with a constant nonlinear term every ETDRK order reduces (MC_ETDRK.RowSumOK) to  u' = E^2 u + dt phi1(z) f ;
        started from rest, n steps give  u_n = f (E^(2n) - 1)/z dt  =  f (exp(n sigma dt) - 1)/sigma :  the machine below iterates
@@ -24,7 +25,7 @@ WFactor(kd) == IF kd = "velocity3d" THEN 0 ELSE 1      \* power of w = 2 pi / L 
 Init == /\ kind \in {"velocity3d", "vorticity2d"}
         /\ \E c \in DNSet : D = c \div 1000 /\ N = c % 1000
         /\ D = (IF kind = "velocity3d" THEN 3 ELSE 2)
-        /\ kmode \in 1..MaxMode /\ 2 * kmode < N
+        /\ kmode \in 1..MaxMode /\ (2 * kmode < N \/ (kind = "vorticity2d" /\ 2 * kmode = N))
         /\ forcing = Forcing(kind, kmode)
         /\ n = 0 /\ acc = RZero
 
@@ -36,7 +37,7 @@ Step == /\ n < MaxSteps
 Next == Step
 
 HermitianOK == \A c \in 1..Len(forcing) : FReal(forcing[c])
-RepresentableOK == \A c \in 1..Len(forcing) : \A k \in DOMAIN forcing[c] : 2 * VMaxAbs(k) < N
+RepresentableOK == \A c \in 1..Len(forcing) : \A k \in DOMAIN forcing[c] : 2 * VMaxAbs(k) < N \/ (kind = "vorticity2d" /\ 2 * VMaxAbs(k) = N)
 \* the forcing depends on x_1 only: it is invariant under shifts along every other axis
 InvariantAxes == { d \in 1..D : \A c \in 1..Len(forcing) : \A k \in DOMAIN forcing[c] : k[d] = 0 }
 ShiftAxesOK == InvariantAxes = (1..D) \ {2}
